@@ -1,7 +1,7 @@
 (* C01  Inbound packets are reassembled exactly under every transport chunking.
    This file contains only the property theorems (closed by `exact`), the tie of the packet
    limit to the constants translated from src/packet.rs, and non-vacuity examples. *)
-From MsqlVerif Require Import Model.Packet Model.PacketBuf Spec.Frame Proofs.PacketRead Proofs.PacketBufRefine Gen.Consts.
+From MsqlVerif Require Import Model.Packet Model.PacketBuf Spec.Frame Proofs.PacketRead Proofs.PacketBufRefine Proofs.PacketBufSim Gen.Consts.
 Open Scope N_scope.
 
 (* (a) a complete framed command at the head of the buffer is delivered whole -- payload
@@ -70,6 +70,17 @@ Theorem C01_exact_clean_end : forall x s fuel,
   x_wf x -> all_data (s_reads s) -> inbound_x x s = [] -> (script_size (s_reads s) < fuel)%nat ->
   exists x' s', next_x fuel x s = (ROk None, x', s') /\ x_tail x' = [] /\ s_reads s' = [].
 Proof. exact next_x_eof. Qed.
+
+(* (g) and, for every read script whatsoever (data, end of stream, transport errors) whose chunks fit the
+   spare capacity the buffer always offers (>= 2048 bytes), the exact bookkeeping and the abstract one
+   used by all other theorems run in lock-step: same result, same trace, same remaining script *)
+Theorem C01_exact_simulates : forall fuel x s,
+  x_wf x -> small_reads (s_reads s) -> s_buf s = x_tail x ->
+  exists r x' s',
+    next_x fuel x s = (r, x', s') /\
+    x_wf x' /\ small_reads (s_reads s') /\
+    next_f fuel s = (r, set_buf (x_tail x') s').
+Proof. exact next_x_simulates. Qed.
 
 (* tie: the constants the code uses (translated from src/packet.rs on every run) are an instance *)
 Theorem C01_constants : U24_MAX = 2 ^ 24 - 1 /\ 0 < U24_MAX < 2 ^ 24 /\
